@@ -43,7 +43,7 @@ MUTANTS = [("base", "enc_nocarry"), ("base", "ws_noskip")]
 
 BOUNDS = {
     "quick":    {"base": ("q", 5, 3), "basedec": ("q", 5, 3), "utf8": ("q", 5, 3), "utf16": ("q", 6, 3)},
-    "thorough": {"base": ("t", 5, 3), "basedec": ("t", 5, 3), "utf8": ("t", 6, 3), "utf16": ("t", 7, 3)},
+    "thorough": {"base": ("t", 5, 3), "basedec": ("t", 5, 3), "utf8": ("t", 5, 3), "utf16": ("t", 6, 3)},
 }
 
 
@@ -129,7 +129,8 @@ def model(v, tier, d):
         cfg = os.path.join(d, "law_%s.cfg" % fam)
         write_cfg(cfg, fam, alpha, ml, mr, emit=True)
         out = os.path.join(d, "tlc_%s.out" % fam)
-        w = max(2, NCPU // 4) if tier == "quick" else NCPU // 2 if fam in ("base", "utf16") else max(2, NCPU // 4)
+        w = {"base": 6, "utf16": 4, "utf8": 4, "basedec": 2}[fam] * max(1, NCPU // 16) if tier == "thorough" else \
+            (max(2, NCPU // 2) if fam == "base" else max(2, NCPU // 4))
         return fam, out, tlc_stream("law_" + fam, cfg, out, w, 1500 if tier == "quick" else 3000)
 
     def refute_run(args):
@@ -137,11 +138,15 @@ def model(v, tier, d):
         alpha, ml, mr = BOUNDS["quick"][fam]
         cfg = os.path.join(d, "ref_%s_%s_%s.cfg" % (fam, defect or "none", mut))
         write_cfg(cfg, fam, alpha, ml, mr, defects=[defect] if defect else [], mut=mut, emit=False)
-        r = tlc_stream("ref_%s_%s_%s" % (fam, defect or "none", mut), cfg, cfg + ".out", 2, 900)
+        r = tlc_stream("ref_%s_%s_%s" % (fam, defect or "none", mut), cfg, cfg + ".out", 1, 900)
         return fam, defect, mut, r
 
-    with ThreadPoolExecutor(max_workers=4) as ex:
-        laws = list(ex.map(law_run, list(bounds)))
+    jobs = [(f, dft, "none") for f, dft in REFUTE] + [(f, None, m) for f, m in MUTANTS]
+    with ThreadPoolExecutor(max_workers=4) as ex1, ThreadPoolExecutor(max_workers=4) as ex2:
+        fl = [ex1.submit(law_run, f) for f in ("base", "utf16", "utf8", "basedec")]
+        fr = [ex2.submit(refute_run, j) for j in jobs]
+        laws = [f.result() for f in fl]
+        refs = [f.result() for f in fr]
     for fam, out, r in laws:
         alpha, ml, mr = bounds[fam]
         v.add_model("Transform %s: alphabet %s, <=%d bytes, <=%d regions, Defects={}" % (fam, alpha, ml, mr), r)
@@ -149,15 +154,13 @@ def model(v, tier, d):
         if r.violated:
             p = save_replay(PROP, "law_%s.tlc.out" % fam, r.out)
             v.violation("the transcribed (repaired) algorithm violates %s in family %s" % (r.violated, fam), p)
-    jobs = [(f, dft, "none") for f, dft in REFUTE] + [(f, None, m) for f, m in MUTANTS]
-    with ThreadPoolExecutor(max_workers=6) as ex:
-        for fam, defect, mut, r in ex.map(refute_run, jobs):
-            what = defect or ("mutant " + mut)
-            if r.violated != "Laws":
-                raise Broken("%s is not refuted by TLC in family %s: the laws are vacuous in these bounds" % (what, fam))
-            m = re.search(r"x = (<<[^\n]*>>)\s*\n\s*\n?\d+ states generated", r.out)
-            v.notes.setdefault("refuted_in_spec", []).append(
-                {"family": fam, "deviation": what, "states": r.distinct, "counterexample_x": m.group(1) if m else None})
+    for fam, defect, mut, r in refs:
+        what = defect or ("mutant " + mut)
+        if r.violated != "Laws":
+            raise Broken("%s is not refuted by TLC in family %s: the laws are vacuous in these bounds" % (what, fam))
+        m = re.search(r"x = (<<[^\n]*>>)\s*\n\s*\n?\d+ states generated", r.out)
+        v.notes.setdefault("refuted_in_spec", []).append(
+            {"family": fam, "deviation": what, "states": r.distinct, "counterexample_x": m.group(1) if m else None})
     return outs
 
 
@@ -231,24 +234,42 @@ def norm(fout, b):
     return b
 
 
-def write_vectors(tab, path):
-    n = 0
-    with open(path, "w") as f:
-        for k in tab.ref:
-            u, fin, fout = k
-            for cuts in splits(len(u), tab.maxreg[k]):
-                risky = any(p[2] or p[3] for _, p in tab.preds(k, cuts))
-                regs = regions_of(u, cuts)
-                f.write("%d %s %d %d %d%s\n" % (n, "F" if risky else "-", FMT[fin], FMT[fout], len(regs),
-                                               "".join(" " + hx(r) for r in regs)))
-                n += 1
-    return n
-
-
-def iter_vectors(tab):
+def plan_vectors(tab, san, seed):
+    """The vectors to replay: (key, cuts, flag).  A vector for which the spec, run with a LISTED defect,
+    predicts memory-unsafe behaviour is run in a forked child, and only a 1/8 sample of those is run:
+    plain build - predicted out-of-bounds WRITES (absurd object fed to an encoder);
+    sanitizer build - every predicted out-of-range access."""
+    skipped = 0
     for k in tab.ref:
-        for cuts in splits(len(k[0]), tab.maxreg[k]):
-            yield k, cuts
+        u, fin, fout = k
+        dv = tab.dev.get(k)
+        n = 0
+        for cuts in splits(len(u), tab.maxreg[k]):
+            flag = "-"
+            if dv:
+                ps = tab.preds(k, cuts)
+                if san:
+                    risky = any(p[2] or p[3] for _, p in ps)
+                else:
+                    risky = fout in ("B32", "B32H", "B64") and any(p[3] for _, p in ps)
+                if risky:
+                    n += 1
+                    if (hash((u, cuts, seed)) & 7) != 0:
+                        skipped += 1
+                        continue
+                    flag = "F"
+            yield k, cuts, flag
+    tab.skipped = skipped
+
+
+def write_vectors(tab, path, san, seed):
+    plan = []
+    with open(path, "w") as f:
+        for n, (k, cuts, flag) in enumerate(plan_vectors(tab, san, seed)):
+            regs = regions_of(k[0], cuts)
+            f.write("%d %s %d %d %d%s\n" % (n, flag, FMT[k[1]], FMT[k[2]], len(regs), "".join(" " + hx(r) for r in regs)))
+            plan.append((k, cuts))
+    return plan
 
 
 def run_driver_replay(drv, vin, vout, env=None, timeout=1500):
@@ -337,25 +358,35 @@ def replay_vectors(v, tab, drv, d, tag, env=None):
     for f in os.listdir(d):
         if f.startswith("vectors_%s." % tag):
             os.unlink(os.path.join(d, f))
-    n = write_vectors(tab, vin)
+    plan = write_vectors(tab, vin, env is not None, v.seed)
+    n = len(plan)
     pieces, crashes, err = run_driver_replay(drv, vin, vout, env=env)
     res = read_results(pieces, crashes)
-    stats = {"vectors": n, "ok": 0, "drift": 0, "known": {}, "violations": 0}
+    stats = {"vectors": n, "ok": 0, "drift": 0, "known": {}, "violations": 0,
+             "skipped_predicted_unsafe_under_listed_defect": tab.skipped}
     pending_inv = []
-    i = 0
-    for k, cuts in iter_vectors(tab):
+    expn = {}
+    for i, (k, cuts) in enumerate(plan):
         real = res.get(i)
-        i += 1
         if real is None:
-            raise Broken("driver produced no result for vector %d" % (i - 1))
-        if real[0] == "G":
-            raise Broken("driver could not establish the fragmentation of vector %d" % (i - 1))
-        verdict, dname, text = judge(tab, k, cuts, real)
-        if verdict == "ok":
+            raise Broken("driver produced no result for vector %d" % i)
+        st = real[0]
+        if st == "G":
+            raise Broken("driver could not establish the fragmentation of vector %d" % i)
+        # fast path: exactly as specified
+        e = expn.get(k)
+        if e is None:
+            pin, ok, out = tab.ref[k]
+            e = expn[k] = (ok, norm(k[2], out))
+        if real[3] in "1-" and ((st == "N" and not e[0]) or (st == "R" and e[0] and norm(k[2], real[2]) == e[1])):
             stats["ok"] += 1
             if len(v.samples) < 4 and len(k[0]) >= 3 and len(cuts) >= 1 and i % 977 == 0:
                 v.samples.append({"replayed": "%s->%s regions [%s]" % (k[1], k[2], " ".join(hx(r) for r in regions_of(k[0], cuts))),
-                                  "result": "NULL" if real[0] == "N" else real[2].hex(), "matches_spec": True})
+                                  "result": "NULL" if st == "N" else real[2].hex(), "matches_spec": True, "build": tag})
+            continue
+        verdict, dname, text = judge(tab, k, cuts, real)
+        if verdict == "ok":
+            stats["ok"] += 1
         elif verdict == "drift":
             stats["drift"] += 1
             if stats["drift"] <= 3:
@@ -363,12 +394,14 @@ def replay_vectors(v, tab, drv, d, tag, env=None):
         elif verdict == "known":
             e = stats["known"].setdefault(dname, {"count": 0, "example": text})
             e["count"] += 1
+            if "not fixed by the property" in e["example"] and "not fixed by the property" not in text:
+                e["example"] = text
         elif verdict == "inv":
             pending_inv.append((k, cuts, real, text))
         else:
             stats["violations"] += 1
             if stats["violations"] <= 5:
-                rp = save_replay(PROP, "vector_%s_%d.json" % (tag, i - 1), json.dumps(
+                rp = save_replay(PROP, "vector_%s_%d.json" % (tag, i), json.dumps(
                     {"vectors": [{"fin": k[1], "fout": k[2], "regions": [hx(r) for r in regions_of(k[0], cuts)],
                                   "expected": {"ok": tab.ref[k][1], "out": bytes(tab.ref[k][2]).hex(), "pinned": tab.ref[k][0]},
                                   "observed": {"st": real[0], "size": real[1], "out": real[2].hex(), "inverse": real[3]}}]}))
@@ -646,7 +679,7 @@ def run(tier, seed):
     rs = random_laws(v, d, drv, seed, 1500 if tier == "quick" else 20000, 3000, "plain")
     allstats.append(("random-laws", rs))
     log("[C20] random laws done %.0fs" % (time.time() - v.t0))
-    v.notes["replay"] = {k: st[k] for k in ("vectors", "ok", "drift", "violations")}
+    v.notes["replay"] = {k: st[k] for k in st if k != "known"}
     v.notes["random_laws"] = {k: rs[k] for k in rs if k != "known"}
     if tier == "thorough":
         adrv = build_driver("drv_transform", "asan")
@@ -655,7 +688,7 @@ def run(tier, seed):
         allstats.append(("replay-asan", st2))
         rs2 = random_laws(v, d, adrv, seed + 7919, 4000, 3000, "asan", env=SAN_ENV, timeout=1500)
         allstats.append(("random-laws-asan", rs2))
-        v.notes["replay_asan"] = {k: st2[k] for k in ("vectors", "ok", "drift", "violations")}
+        v.notes["replay_asan"] = {k: st2[k] for k in st2 if k != "known"}
         v.notes["random_laws_asan"] = {k: rs2[k] for k in rs2 if k != "known"}
         v.notes["memory_safety"] = "observed: vectors and random laws re-run on the ASan+UBSan build; decided: index ranges in Transform.tla (ghost oob)"
     else:
